@@ -684,9 +684,62 @@ func c03SlowPackets(c *Ctx, r *Rng) {
 	}
 }
 
+// a query with NO result columns bound (Query.Result nil, as for DDL or "INSERT … SELECT") that the server nevertheless
+// answers with header blocks (columns, zero rows) among its telemetry: every packet after the header must still be
+// delivered, and the call ends with nil at EndOfStream
+func c03NoResultBound(c *Ctx) {
+	R := c.R
+	for _, rev := range []int{54429, 54453, 54454, 54460} {
+		for _, comp := range []ch.Compression{ch.CompressionDisabled, ch.CompressionLZ4} {
+			for _, ncols := range []int{1, 3} {
+				for _, code := range []byte{1, 7} { // Data, Totals
+					sc, err := connectSim(simOpts{compression: comp, serverRev: rev, readTimeout: 300 * time.Millisecond})
+					if err != nil {
+						R.Note("no-result: %v", err)
+						return
+					}
+					var scols []srvCol
+					for i := 0; i < ncols; i++ {
+						ts := []string{"UInt64", "String", "Array(Int8)"}[i%3]
+						scols = append(scols, srvCol{fmt.Sprintf("c%d", i), ts, genCol(NewRng(1), mustType(ts), 0, genOpts{})})
+					}
+					var stream []byte
+					stream = append(stream, sc.enc.dataPacket(code, scols, 0)...)
+					stream = append(stream, sc.enc.progress(11, 22, 33, 44, 55, 66)...)
+					stream = append(stream, sc.enc.dataPacket(code, scols, 0)...)
+					stream = append(stream, sc.enc.progress(12, 22, 33, 44, 55, 66)...)
+					stream = append(stream, sc.enc.endOfStream()...)
+					sc.conn.feed(stream)
+					sc.conn.setEOF()
+					var trace []string
+					q := ch.Query{Body: "OPTIMIZE TABLE t", OnProgress: func(ctx context.Context, p proto.Progress) error {
+						trace = append(trace, fmt.Sprintf("p:%d", p.Rows))
+						return nil
+					}}
+					ctx, cancel := context.WithTimeout(context.Background(), 5*time.Second)
+					err = sc.client.Do(ctx, q)
+					cancel()
+					sc.client.Close()
+					cs := map[string]any{"scenario": "no result bound, header blocks among telemetry", "revision": rev, "compression": comp.String(), "columns": ncols, "packet_code": code, "trace": trace, "error": fmt.Sprint(err)}
+					R.Case(fmt.Sprintf("no-result|%d|%v|%d|%d", rev, comp, ncols, code), true)
+					R.Count("shape:no-result-bound")
+					if err != nil {
+						R.Violate(Violation{Kind: "oracle", Key: "delivery-result", What: fmt.Sprintf("a well-formed stream [header block, Progress, header block, Progress, EndOfStream] with no result bound: Do returned %v, want nil", err), Case: cs})
+						continue
+					}
+					if strings.Join(trace, ",") != "p:11,p:12" {
+						R.Violate(Violation{Kind: "oracle", Key: "delivery-trace", What: fmt.Sprintf("progress callbacks %v, want [p:11 p:12]", trace), Case: cs})
+					}
+				}
+			}
+		}
+	}
+}
+
 func runC03(c *Ctx) {
 	R := c.R
 	defer c03SlowPackets(c, c.Rng.Fork())
+	defer c03NoResultBound(c)
 	R.Rule = "response scripts (header blocks, data/totals blocks of random schemas incl. zero-row ones, Progress, Profile, ProfileEvents with UInt64/Int64 values, Log, TableColumns, exception chains of depth 1..5, EndOfStream / unexpected packet / cut) encoded by the harness' own encoders x compression {disabled, LZ4, ZSTD, None, LZ4HC} x negotiated revisions x presence/absence of each callback x a failing callback; executed by the real Client.Do against a scripted in-memory connection; callback trace, result-column snapshots at callback time, result and exception chain compared with the script and with the Lean specification. non-trivial = more than one packet; distinct by (script, handlers, revision, compression, schema)."
 	r := c.Rng
 	n := 250
